@@ -9,6 +9,7 @@ MODELS = {
     "seq": (["PS1", "PS2", "PS3", "PS4"], ["vector", "list"], 2),
     "map": (["PM1", "PM2"], ["hashtbl", "treetbl"], 2),
     "mmap": (["PL1"], ["listtbl"], 2),
+    "umap": (["PU1", "PU2"], ["listtblu"], 2),
 }
 PROGS = {
     "PS1": [[("addlast", 1, 0), ("popfirst", 0, 0)], [("addlast", 2, 0)], [("toarray", 0, 0)]],
@@ -18,6 +19,8 @@ PROGS = {
     "PM1": [[("put", 1, 1), ("get", 2, 0)], [("put", 2, 2), ("remove", 1, 0)], [("walk", 0, 0)]],
     "PM2": [[("put", 1, 1), ("put", 1, 2)], [("get", 1, 0), ("remove", 1, 0)], [("clear", 0, 0)]],
     "PL1": [[("put", 1, 1), ("get", 1, 0)], [("put", 1, 2), ("remove", 1, 0)], [("walk", 0, 0)]],
+    "PU1": [[("put", 1, 1), ("get", 1, 0)], [("put", 1, 2)], [("put", 1, 3), ("walk", 0, 0)]],
+    "PU2": [[("put", 1, 1), ("put", 2, 1)], [("put", 1, 2), ("remove", 1, 0)], [("walk", 0, 0)]],
 }
 
 
